@@ -316,9 +316,32 @@ def rule_cli_pats(ctx, R):
               and s["name"] not in ("is_empty", "len", "to_string", "as_bytes")] if S.calls else []
     oks = len(psplit) == 1 and psplit[0]["name"] == "split" and len(psplit[0]["args"]) == 2 and \
         psplit[0]["args"][1][0] == "const" and psplit[0]["args"][1][1] == 10
+    if not oks:
+        # what matters is the splitter of the pieces that are ADDED (a second pass over the string that only counts pieces for a
+        # `reserve` is free): every -p addition's element comes out of exactly one str transformation, split('\n')
+        padds = [a for a in adds if any(x[0] == "field" and x[3] == "patterns" for x in walk(a.val))]
+        def str_ops(t):
+            return [x for x in walk(t) if x[0] == "call" and isinstance(x[1], str) and x[1].startswith("core::str::") and
+                    x[1].split("@")[0].split("::")[-1] not in ("is_empty", "len", "to_string", "as_bytes", "to_owned")]
+        oks = bool(padds) and all(len(str_ops(a.val)) == 1 and str_ops(a.val)[0][1].split("@")[0].endswith("::split") and
+                                  len(str_ops(a.val)[0][2]) == 2 and str_ops(a.val)[0][2][1][0] == "const" and str_ops(a.val)[0][2][1][1] == 10
+                                  for a in padds)
     ctx.check(oks, "CLI-PATS", b, "p-split-on-newline", b.span,
               "the -p argument must be split with split('\\n') only (no CR stripping / trimming: patterns are arbitrary strings); found %s"
               % [(s["name"], [show(a) for a in s["args"][1:]]) for s in psplit])
+    # the two sources are independent: each one is read whenever it is given, whatever the state of the other (`else if` between the
+    # -f and the -p block would drop -p when both are given)
+    def src_opt(name):
+        return lambda t: t[0] == "field" and t[3] == name
+    for name, other in (("patterns", "pattern_file"), ("pattern_file", "patterns")):
+        mine = [a for a in adds if any(x[0] == "field" and x[3] == name for x in walk(a.val))]
+        oki = bool(mine)
+        for other_given in (True, False):
+            vis = cond.explore(S.root, [0], [], some_atoms=[(src_opt(name), True), (src_opt(other), other_given)])
+            oki = oki and vis is not None and all(a.bb in vis for a in mine)
+        ctx.check(oki, "CLI-PATS", b, "source-independent:" + name, b.loc(mine[0].bb) if mine else b.span,
+                  "the patterns of -%s must be collected whenever the option is given, with or without the other pattern option"
+                  % ("p" if name == "patterns" else "f"))
     # the build error is propagated, not unwrapped
     site = (b.path, news[0]["bb"])
     bad = [s for s in S.calls if core.callee_base(s["key"]) in ("core::result::Result::unwrap", "core::result::Result::expect",
